@@ -40,8 +40,8 @@ def _get_axes(*arrays):
             axis = o.axes[dim]
 
             # update values
-            if common_axis is None or (common_axis.size==1 and axis.size > 1):
-                common_axis = axis
+            if common_axis is None or (common_axis.size==1 and (axis.size > 1 or common_axis.values[0] is None)):
+                common_axis = axis # (a singleton inserted for broadcasting, labelled None, never wins over a real axis)
 
             # Test alignment for non-singleton axes
             if not (axis.size == 1 or np.all(axis.values==common_axis.values)):
